@@ -68,6 +68,7 @@ type Options struct {
 	InvalidPodFaults bool          // the fault plan may answer Pod creates with 422 Invalid (a legitimate source of admission errors)
 	StoreYield       bool          // make the active-job store's compare-and-add a scheduling point
 	DeepLag          bool          // in lag mode the starved cache falls behind by many syncs, not just a few steps
+	LagKinds         []Kind        // in lag mode: starve exactly these caches (default: one or two chosen at random)
 	TraceCap         int
 }
 
@@ -227,7 +228,11 @@ func NewWorld(opt Options) *World {
 	if opt.DeepLag {
 		w.lagWeight = map[Kind]int{KJob: 40, KJobConfig: 40, KPod: 40}
 	}
-	if opt.Mode == "lag" {
+	if opt.Mode == "lag" && len(opt.LagKinds) > 0 {
+		for _, k := range opt.LagKinds {
+			w.lagWeight[k] = 1
+		}
+	} else if opt.Mode == "lag" {
 		// one or two caches lag heavily in this case
 		kinds := []Kind{KJob, KJobConfig, KPod}
 		w.lagWeight[kinds[w.Rnd.Intn(3)]] = 1
